@@ -306,11 +306,19 @@ fn pairs(n: usize) -> Vec<(usize, usize)> {
 }
 
 fn random_case() -> impl Strategy<Value = CutCase> {
-    (2usize..=9, 0u8..4, any::<bool>()).prop_flat_map(|(n, kind, sparse)| {
+    (2usize..=9, 0u8..4, 0u8..10).prop_flat_map(|(n, kind, scheme)| {
+        let sparse = scheme % 2 == 1;
         (prop::collection::vec((0..n, 0..n), 0..=16), 0..n, 0..n - 1).prop_map(move |(es, s, t0)| {
             let t = if t0 >= s { t0 + 1 } else { t0 };
             // optional sparse relabelling (exercises the vertex-splitting offset)
-            let lab = |v: usize| if sparse { [5, 0, 11, 3, 40, 7, 2, 19, 8][v] } else { v };
+            // schemes 6..9: labels that straddle 2^31 / 2^32, multiples of 2^32 + 1, one huge label
+            let lab = |v: usize| match scheme {
+                6 => (1usize << 31) - 4 + [5, 0, 11, 3, 40, 7, 2, 19, 8][v],
+                7 => (1usize << 32) - 4 + v,
+                8 => v * ((1usize << 32) + 1) + (v % 2) * (1usize << 40),
+                9 => if v == n - 1 { 1usize << 61 } else { v },
+                _ => if sparse { [5, 0, 11, 3, 40, 7, 2, 19, 8][v] } else { v },
+            };
             let es = es.into_iter().filter(|&(a, b)| kind < 2 || !((a, b) == (s, t) || (kind == 3 && (a, b) == (t, s))));
             CutCase { kind, edges: es.map(|(a, b)| (lab(a), lab(b))).collect(), s: lab(s), t: lab(t) }
         })
